@@ -142,7 +142,7 @@ def gen_robots(rng, site, agent_token):
 
 
 def gen_case(rng):
-    mode = rng.choice(['200', '200', '200', '200', '404', '5xx', 'redirect', 'nofollow'])
+    mode = rng.choice(['200', '200', '200', '200', '404', '5xx', 'redirect', 'redirect', 'nofollow'])
     return {'site_seed': rng.randrange(1 << 30), 'n_pages': rng.choice([5, 8, 12]), 'mode': mode,
             'robots_seed': rng.randrange(1 << 30), 'concurrent': rng.choice([1, 1, 2, 4, 6]),
             'agent': rng.choice([None, None, 'MyBot/1.0 (+http://x.test)', 'Mozilla/5.0 (compatible; wpull-like)']),
@@ -224,6 +224,9 @@ def run_case(case, part):
         if mode == '5xx':
             return {'status': 503, 'reason': 'Service Unavailable', 'headers': [('Content-Type', 'text/plain')],
                     'body': b'later'}
+        if mode == 'redirect' and case['hosts'] == 2 and host == 'a.test' and case['robots_seed'] % 2:
+            # the robots.txt of a.test is hosted elsewhere: on b.test, under another path.  b.test has a robots.txt of its own
+            return {'status': 301, 'reason': 'Moved', 'headers': [('Location', 'http://b.test/hosted/robots-of-a.txt')], 'body': b''}
         if mode == 'redirect':
             # the redirect itself carries a body (sometimes much longer than the final file)
             filler = [b'', b'<html>moved</html>', b'<html><body>' + b'Allow: /\nmoved to /robots-real.txt ' * 120 + b'</body></html>']
@@ -237,6 +240,8 @@ def run_case(case, part):
         host = norm_host(req['host'])
         if req['target'] == '/robots-real.txt':
             return robots_handler(req)
+        if req['target'] == '/hosted/robots-of-a.txt':
+            return {'status': 200, 'headers': [('Content-Type', 'text/plain')], 'body': robots_text.get('a.test', '').encode('latin-1')}
         h = handlers.get(host)
         return h(req) if h else {'status': 404, 'reason': 'NF', 'body': b''}
     same_name = case['hosts'] == 3
@@ -285,7 +290,7 @@ def judge(case, sites, robots_text, pad_positions, res, rows, log, part):
     for s in sites:
         entries = by_host.get(s.host, [])
         robots_reqs = [e for e in entries if e['target'] == '/robots.txt']
-        page_reqs = [e for e in entries if e['target'] not in ('/robots.txt', '/robots-real.txt')]
+        page_reqs = [e for e in entries if e['target'] not in ('/robots.txt', '/robots-real.txt', '/hosted/robots-of-a.txt')]
         text = robots_text[s.host]
         big = len(text) > 4096
         pp = pad_positions[s.host]
